@@ -160,6 +160,15 @@ func runC12(c *Ctx) {
 				}
 			}
 			construct := name + ":NotAfter"
+			if days == -1 && arm == 0 && branchesOnCA {
+				// one store for both kinds, the number of days read from a record that a per-kind helper filled in
+				// and that was chosen on the same IsCA test
+				if ca, sign, ok := lifetimeByKind(st.Val, dayNs); ok {
+					c.S.Check(ca == rootDays, "R4", construct+" (CA arm)", c.pos(st.Pos()), fmt.Sprintf("CA lifetime is RootValidDays (%d days), chosen per kind", rootDays), fmt.Sprintf("a CA certificate template gets a lifetime of %d days, want RootValidDays=%d", ca, rootDays))
+					c.S.Check(sign == signDays, "R4", construct+" (signing arm)", c.pos(st.Pos()), fmt.Sprintf("signing lifetime is SignValidDays (%d days), chosen per kind", signDays), fmt.Sprintf("a signing certificate template gets a lifetime of %d days, want SignValidDays=%d", sign, signDays))
+					continue
+				}
+			}
 			switch {
 			case days == -2:
 				// lifetime given by a parameter (helper): checked at the call sites below
@@ -592,6 +601,143 @@ func caCond(cond ssa.Value) int {
 		}
 	}
 	return 0
+}
+
+// lifetimeByKind: v = t.Add(n × const) where n is a field of the record returned by a call through a function value
+// that is one of two same-package functions chosen on the certificate's IsCA test, each returning a record literal
+// with a constant in that field. Returns the lifetime in days of the CA arm and of the other arm.
+func lifetimeByKind(v ssa.Value, dayNs int64) (ca, sign int64, ok bool) {
+	call, isCall := v.(*ssa.Call)
+	if !isCall || !calleeIs(call, "(time.Time).Add") {
+		return 0, 0, false
+	}
+	mult := int64(1)
+	var leaf ssa.Value
+	var peel func(x ssa.Value, n int) bool
+	peel = func(x ssa.Value, n int) bool {
+		if n > 6 {
+			return false
+		}
+		switch y := x.(type) {
+		case *ssa.Convert:
+			return peel(y.X, n+1)
+		case *ssa.BinOp:
+			if y.Op != token.MUL {
+				return false
+			}
+			if k, ok := constInt(y.Y); ok {
+				mult *= k
+				return peel(y.X, n+1)
+			}
+			if k, ok := constInt(y.X); ok {
+				mult *= k
+				return peel(y.Y, n+1)
+			}
+			return false
+		case *ssa.UnOp:
+			if y.Op == token.MUL && leaf == nil {
+				leaf = y
+				return true
+			}
+		}
+		return false
+	}
+	if !peel(call.Call.Args[1], 0) || leaf == nil || mult <= 0 {
+		return 0, 0, false
+	}
+	fa, isFA := leaf.(*ssa.UnOp).X.(*ssa.FieldAddr)
+	if !isFA {
+		return 0, 0, false
+	}
+	ex, isEx := fa.X.(*ssa.Extract)
+	if !isEx || ex.Index != 0 {
+		return 0, 0, false
+	}
+	rc, isRC := ex.Tuple.(*ssa.Call)
+	if !isRC {
+		return 0, 0, false
+	}
+	phi, isPhi := rc.Call.Value.(*ssa.Phi)
+	if !isPhi || len(phi.Edges) != 2 {
+		return 0, 0, false
+	}
+	fieldConst := func(g *ssa.Function) (int64, bool) {
+		var val int64
+		n := 0
+		for _, b := range g.Blocks {
+			ret, isRet := b.Instrs[len(b.Instrs)-1].(*ssa.Return)
+			if !isRet || len(ret.Results) == 0 || isNilK(ret.Results[0]) {
+				continue
+			}
+			al, isAl := ret.Results[0].(*ssa.Alloc)
+			if !isAl {
+				return 0, false
+			}
+			found := false
+			for _, ref := range *al.Referrers() {
+				f2, isF := ref.(*ssa.FieldAddr)
+				if !isF || f2.Field != fa.Field {
+					continue
+				}
+				for _, r2 := range *f2.Referrers() {
+					if st, isSt := r2.(*ssa.Store); isSt && st.Addr == ssa.Value(f2) {
+						k, isK := constInt(st.Val)
+						if !isK || found || (n > 0 && k != val) {
+							return 0, false
+						}
+						val, found = k, true
+					}
+				}
+			}
+			if !found {
+				return 0, false
+			}
+			n++
+		}
+		return val, n > 0
+	}
+	got := map[int]int64{}
+	for i, e := range phi.Edges {
+		g, isFn := e.(*ssa.Function)
+		if !isFn || g.Blocks == nil {
+			return 0, 0, false
+		}
+		k, okk := fieldConst(g)
+		if !okk || (k*mult)%dayNs != 0 {
+			return 0, 0, false
+		}
+		pred := phi.Block().Preds[i]
+		arm := 0
+		for _, cf := range dominatingConds(pred) {
+			if s := caCond(cf.Cond); s != 0 {
+				if cf.Val {
+					arm = s
+				} else {
+					arm = -s
+				}
+			}
+		}
+		if iff, isIf := pred.Instrs[len(pred.Instrs)-1].(*ssa.If); isIf && arm == 0 {
+			if s := caCond(iff.Cond); s != 0 {
+				if pred.Succs[0] == phi.Block() {
+					arm = s
+				} else {
+					arm = -s
+				}
+			}
+		}
+		if arm == 0 {
+			return 0, 0, false
+		}
+		if _, dup := got[arm]; dup {
+			return 0, 0, false
+		}
+		got[arm] = k * mult / dayNs
+	}
+	if len(got) != 2 {
+		return 0, 0, false
+	}
+	return got[1], got[-1], true
 }
 
 // lifetimeDays: v = t.Add(const d) → d in days; -2 if the duration depends on a parameter; -1 otherwise.
